@@ -350,9 +350,13 @@ def _g_tmm(rng, tier):
 def _g_dv(rng, tier):
     for _ in range(gens.budget(tier, 150, 2000)):
         k, p = rng.randint(1, 5), rng.randint(1, 4)
+        nre, nim = gens.reals(rng, (k,), 0.1, 3, special=False), gens.reals(rng, (k,), 0.1, 3, special=False)
+        for i in range(k):
+            if rng.random() < 0.3:
+                nim[i] = nre[i]            # some visibilities with sigma_re == sigma_im exactly, others not (no entry speaks for the rest)
         yield {"transformed_mapping_matrix": gens.reals(rng, (k, p), -3, 3) + 1j * gens.reals(rng, (k, p), -3, 3),
                "visibilities": gens.reals(rng, (k,), -5, 5) + 1j * gens.reals(rng, (k,), -5, 5),
-               "noise_map": gens.reals(rng, (k,), 0.1, 3, special=False) + 1j * gens.reals(rng, (k,), 0.1, 3, special=False)}
+               "noise_map": nre + 1j * nim}
 
 
 CONTRACTS[T + "image_via_jit_from"].gen = _g_adj
